@@ -93,6 +93,13 @@ fn ring_boundary_indices(n: u64, j: u64) -> Vec<u64> {
   let first = ring_index(n, x0, y0).expect("oracle: ring start");
   let mut v = vec![];
   let q = cells / 4;
+  // generic indices inside the ring
+  for f in [3u64, 7, 11] {
+    let idx = first + (cells * f) / 13;
+    if idx < total {
+      v.push(idx);
+    }
+  }
   for k in 0..=4u64 {
     for d in [-2i64, -1, 0, 1] {
       let idx = (first + k * q) as i64 + d;
